@@ -66,6 +66,16 @@ theorem unregister_keeps_manager_sound (lens : List Int) (rr i : Nat) (h : i < l
 
 example : (1 : Nat) < [5, 6, 7, 8].length ∧ unregister [5, 6, 7, 8] 2 1 = ([5, 8, 7], 0) := by decide
 
+/-- after any removal the next round-robin selection still runs on a valid cursor and leaves one: together with
+    `round_robin_cursor_valid` and `Register` (which only appends) the cursor is in range — or the manager empty —
+    after every sequence of Register / UnregisterItem / GetRoundRobinItem calls -/
+theorem select_after_unregister_in_range (lens : List Int) (rr i : Nat) (hrr : rr < lens.length ∨ lens = [])
+    (hne : (unregister lens rr i).1 ≠ []) :
+    (roundRobin (unregister lens rr i).1 (unregister lens rr i).2).2 < (unregister lens rr i).1.length := by
+  rcases unregister_cursor lens rr i hrr with h | h
+  · exact rr_cursor_lt _ _ h
+  · exact absurd h hne
+
 /-- every bind path of the current tree registers its queue exactly once (regenerated call graph) -/
 theorem registered_once : Generated.registerCalls.all (fun p => p.2 == 1) = true := Tie.register_once
 
